@@ -320,7 +320,9 @@ ElemNumber::findPrecedingOrAncestorOrSelf(
 
     while (thePos != 0)
     {
-        if (0 != fromMatchPattern)
+        // Only the nodes before the context node are tested against
+        // the 'from' pattern, not the context node itself.
+        if (0 != fromMatchPattern && thePos != context)
         {
             if (fromMatchPattern->getMatchScore(
                     thePos,
@@ -806,9 +808,14 @@ ElemNumber::getMatchingAncestors(
         countMatchPattern = xpathGuard.get();
     }
 
+    // Only the ancestors of the node are tested against the 'from'
+    // pattern, not the node itself.
+    const XalanNode* const  theStartNode = node;
+
     while (0 != node)
     {
         if (0 != m_fromMatchPattern &&
+            node != theStartNode &&
             m_fromMatchPattern->getMatchScore(
                 node,
                 *this,
